@@ -177,12 +177,21 @@ def decoded_lines(data: bytes):
         return None
 
 
+def decoded_text(data: bytes):
+    """The decoded text with the file's own line ends (newline=''): the model splits it into lines itself (Bandit/Lines.lean `uniLines`)."""
+    try:
+        enc, _ = tokenize.detect_encoding(io.BytesIO(data).readline)
+        return io.TextIOWrapper(io.BytesIO(data), encoding=enc, newline="").read()
+    except Exception:
+        return None
+
+
 def scan_request(data: bytes, fname="x.py", ignore_nosec=False, plugin_cfg=None, select=None, stdin=False):
     req = {"op": "scan", "tree": astser.ser_source(data), "comments": comments_of(data),
            "ignore_nosec": ignore_nosec, "fname": fname, "stdin": stdin}
-    dl = decoded_lines(data)
-    if dl is not None:
-        req["lines"] = dl
+    dt = decoded_text(data)
+    if dt is not None:
+        req["text"] = dt
     if plugin_cfg:
         req["plugin_cfg"] = plugin_cfg
     if select is not None:
